@@ -1268,11 +1268,131 @@ func init() {
 						res[key] = v
 					}
 					if !okInit {
+						// the time may be written right after the insertion, into the entry just inserted or found (`e.used = now`
+						// behind the `if !ok { … c.entries[key] = e }`): every path from the insertion to a return passes such a store
+						stamp := map[*ssa.BasicBlock]bool{}
+						an.Instrs(fn, func(i2 ssa.Instruction) {
+							if st, isSt := i2.(*ssa.Store); isSt && isTimeType(st.Val.Type()) {
+								if fa, isFA := st.Addr.(*ssa.FieldAddr); isFA {
+									if mt, isM := mu.Map.Type().Underlying().(*types.Map); isM && types.Identical(an.Deref(fa.X.Type()), an.Deref(mt.Elem())) {
+										stamp[st.Block()] = true
+									}
+								}
+							}
+						})
+						seenB := map[*ssa.BasicBlock]bool{}
+						var leaks func(b *ssa.BasicBlock) bool
+						leaks = func(b *ssa.BasicBlock) bool {
+							if seenB[b] || stamp[b] {
+								return false
+							}
+							seenB[b] = true
+							if _, isRet := b.Instrs[len(b.Instrs)-1].(*ssa.Return); isRet {
+								return true
+							}
+							for _, sc := range b.Succs {
+								if leaks(sc) {
+									return true
+								}
+							}
+							return false
+						}
+						if len(stamp) > 0 && !leaks(mu.Block()) {
+							okInit = true
+						}
+					}
+					if !okInit {
 						v.bad = "a new entry is inserted without setting its last-use time"
 					} else if stale != token.NoPos {
 						v.bad = fmt.Sprintf("the last-use time of a new entry is read from the clock at %s, before the cache mutex is taken (the entry is as much older than its insertion as the lock was waited for)", c.P.Pos(stale))
 					}
 				})
+			}
+			// storing a value is a use: in the function that inserts into the entries map, every path that writes the value
+			// of an entry (a fresh one or one it found under the key) also writes that entry's last-use time
+			for _, fn := range c.P.Funcs("internal/cache") {
+				if fn.TypeParams().Len() > 0 && len(fn.TypeArgs()) == 0 || len(fn.Blocks) == 0 {
+					continue
+				}
+				var entryT types.Type
+				an.Instrs(fn, func(in ssa.Instruction) {
+					if mu, ok := in.(*ssa.MapUpdate); ok {
+						if _, p := accessPath(mu.Map); len(p) > 0 && p[len(p)-1] == "entries" {
+							if mt, isM := mu.Map.Type().Underlying().(*types.Map); isM {
+								entryT = an.Deref(mt.Elem())
+							}
+						}
+					}
+				})
+				if entryT == nil {
+					continue
+				}
+				refresh := map[*ssa.BasicBlock]bool{}
+				var writes []*ssa.Store
+				an.Instrs(fn, func(in ssa.Instruction) {
+					st, ok := in.(*ssa.Store)
+					if !ok {
+						return
+					}
+					fa, ok := st.Addr.(*ssa.FieldAddr)
+					if !ok || !types.Identical(an.Deref(fa.X.Type()), entryT) {
+						return
+					}
+					if isTimeType(st.Val.Type()) {
+						refresh[st.Block()] = true
+					} else {
+						writes = append(writes, st)
+					}
+				})
+				if len(writes) == 0 {
+					continue
+				}
+				name := c.P.FuncName(fn)
+				if fn.Origin() != nil {
+					name = c.P.FuncName(fn.Origin())
+				}
+				key := "store-refreshes:" + kn(name)
+				v := res[key]
+				if v == nil {
+					v = &verdict{pos: fn.Pos()}
+					res[key] = v
+				}
+				avoid := func(from, to *ssa.BasicBlock, toReturn bool) bool {
+					seen := map[*ssa.BasicBlock]bool{}
+					var walk func(b *ssa.BasicBlock) bool
+					walk = func(b *ssa.BasicBlock) bool {
+						if seen[b] || (refresh[b] && b != from) {
+							return false
+						}
+						seen[b] = true
+						if toReturn {
+							if _, isRet := b.Instrs[len(b.Instrs)-1].(*ssa.Return); isRet && b != from {
+								return true
+							}
+							if _, isRet := b.Instrs[len(b.Instrs)-1].(*ssa.Return); isRet && b == from {
+								return true
+							}
+						} else if b == to {
+							return true
+						}
+						for _, sc := range b.Succs {
+							if walk(sc) {
+								return true
+							}
+						}
+						return false
+					}
+					return walk(from)
+				}
+				for _, w := range writes {
+					if refresh[w.Block()] {
+						continue
+					}
+					if avoid(fn.Blocks[0], w.Block(), false) && avoid(w.Block(), nil, true) {
+						v.bad = fmt.Sprintf("%s stores the value of an entry at %s on a path on which that entry's last-use time is not written: replacing the value under an existing key is not counted as a use", name, c.P.Pos(w.Pos()))
+						v.pos = w.Pos()
+					}
+				}
 			}
 			var keys []string
 			for k := range res {
